@@ -381,7 +381,7 @@ def run(ctx) -> None:
         for is_async, ci in d.items():
             for m in ci.methods.values():
                 for n in walk_local(m.node):
-                    if isinstance(n, ast.Assign) and any(isinstance(c, ast.Call) and dotted(c.func) == "list" for c in ast.walk(n.value)) and any(isinstance(t, ast.Name) and t.id == "result" for t in n.targets):
+                    if isinstance(n, ast.Assign) and any(isinstance(c, ast.Call) and dotted(c.func) == "list" for c in ast.walk(n.value)) and any(isinstance(t, ast.Name) and any(isinstance(x, ast.Name) and x.id == t.id for x in ast.walk(n.value)) for t in n.targets):
                         g = enclosing(n, (ast.If,))
                         guards.setdefault(key, {})[is_async] = (src(g.test) if g is not None else "<unconditional>", f"{m.module.rel}:{n.lineno}")
     for key, d in guards.items():
